@@ -107,6 +107,36 @@ def coq_build(deps=None):
         return r.returncode == 0, r.stdout
 
 
+def coqchk_module(module):
+    """thorough tier: re-check the compiled property file and everything it depends on with the independent checker
+    coqchk, and collect the axioms it reports.  The result is cached per state of the compiled tree (one run per tree
+    and module, shared between checks through a lock).  Returns (ok, axioms(list) or None, text)."""
+    h = hashlib.sha1()
+    for d, _, fs in sorted(os.walk(os.path.join(COQ, "theories"))):
+        for fn in sorted(fs):
+            if fn.endswith(".vo"):
+                st = os.stat(os.path.join(d, fn))
+                h.update(("%s %d %d\n" % (fn, st.st_size, int(st.st_mtime))).encode())
+    cdir = os.path.join(BUILD, "coqchk")
+    os.makedirs(cdir, exist_ok=True)
+    cache = os.path.join(cdir, "%s-%s.txt" % (module, h.hexdigest()[:16]))
+    with Lock("coqchk-" + module):
+        if os.path.exists(cache):
+            out = open(cache).read()
+        else:
+            r = sh(["timeout", "5400", "coqchk", "-silent", "-o", "-Q", "theories", "Galaxy", "Galaxy.Props." + module], cwd=COQ)
+            out = "EXIT %d\n" % r.returncode + r.stdout
+            with open(cache, "w") as f:
+                f.write(out)
+    ok = out.startswith("EXIT 0")
+    axioms = None
+    m = re.search(r"\* Axioms:\s*(.*?)\n\s*\n|\* Axioms:\s*(.*?)\Z", out, re.S)
+    if m:
+        body = (m.group(1) or m.group(2) or "").strip()
+        axioms = [] if body.startswith("<none>") else [l.strip() for l in body.split("\n") if l.strip() and not l.strip().startswith("*")]
+    return ok, axioms, out[-3000:]
+
+
 def strip_coq_comments(text):
     """remove (* ... *) comments (nested, multi-line), keeping line structure"""
     out, depth, i, n = [], 0, 0, len(text)
@@ -245,6 +275,17 @@ class Ctx:
             if bad:
                 self.violation("proof", "theorem %s depends on axioms %s" % (n, bad), {"theorem": n}, found=False,
                                theorem=n)
+                good = False
+            else:
+                self.cov["discharged"] += 1
+        if good and not self.quick:
+            ok, axioms, text = coqchk_module(module)
+            self.cov["obligations"] += 1
+            self.cov["coqchk"] = {"module": "Galaxy.Props." + module, "ok": ok, "axioms": axioms}
+            bad = [a for a in (axioms or []) if a not in ALLOWED_AXIOMS]
+            if not ok or axioms is None or bad:
+                self.violation("proof", "coqchk does not accept Props/%s.v (or reports axioms %s)" % (module, bad),
+                               {"output": text}, found=False, theorem="coqchk " + module)
                 good = False
             else:
                 self.cov["discharged"] += 1
